@@ -16,7 +16,7 @@ UU_ban == [peerOf |-> <<1, 2, 3>>, ipOf |-> <<1, 1, 11>>, gw |-> 10, white |-> {
            maxIn |-> 1, maxOut |-> 1, noBR |-> FALSE]
 UU_wo == [UU_reg EXCEPT !.whiteOnly = TRUE]
 UU_nobr == [UU_reg EXCEPT !.noBR = TRUE, !.white = {}]
-UU_book == [peerOf |-> <<1, 2, 3, 4>>, ipOf |-> <<1, 2, 2, 11>>, gw |-> 10, white |-> {}, whiteOnly |-> FALSE,
+UU_book == [peerOf |-> <<1, 2, 3>>, ipOf |-> <<1, 1, 11>>, gw |-> 10, white |-> {}, whiteOnly |-> FALSE,
             maxIn |-> 1, maxOut |-> 1, noBR |-> FALSE]
 N == Len(UU.peerOf)
 Addrs == 1..N
@@ -57,7 +57,7 @@ MBook == /\ WithBook
                   AddAddr(a, fl, R, res) /\ UNCHANGED open
             \/ \E a \in Addrs : AddOutbound(a, {1, 2, 3}) /\ UNCHANGED open
             \/ \E a \in Addrs : Touch(a) /\ UNCHANGED open
-            \/ \E a \in Book : MarkTried(a) /\ store[a].at < 3 /\ UNCHANGED open
+            \/ \E a \in Book : MarkTried(a) /\ store[a].at < 2 /\ UNCHANGED open
             \/ \E a \in Book : MarkConnected(a) /\ UNCHANGED open
             \/ \E a \in Addrs : Remove(a) /\ UNCHANGED open
             \/ \E k \in Kinds, r \in Reqs, n \in {1, 2} : \E R \in SUBSET Book : Fetch(k, r, n, R) /\ UNCHANGED open
